@@ -25,7 +25,7 @@ class CliCheck(object):
         self.seed = opts.seed
         self.tier = opts.tier
         self.budget_s = opts.budget if opts.budget is not None else DEFAULT_BUDGET[self.tier][prop]
-        self.rep = common.Reporter(prop, self.seed)
+        self.rep = common.Reporter(prop, self.seed, opts.replay_dir)
         self.stats = {'jobs': 0, 'worlds': 0, 'runs': 0, 'events': 0, 'visits': 0, 'fault_plans': 0, 'restarts': 0,
                       'real_crash_crosschecks': 0, 'real_crash_mismatch': 0, 'subprocess_crosschecks': 0, 'subprocess_mismatch': 0,
                       'faults_not_fired': 0, 'fault_space_enumerated': 0, 'fault_space_capped': 0, 'model_api_calls': 0,
@@ -49,7 +49,7 @@ class CliCheck(object):
         started = 0
         try:
             while True:
-                while self.pool.queued() < len(self.pool.zygotes) and not budget.exhausted(started):
+                while self.pool.queued() < len(self.pool.zygotes) and not budget.exhausted(started) and not self.stop_early():
                     job = gen_job(self.prop, self.seed, started, self.tier)
                     job.update({'_hs': 0, '_index': started, '_cb': self.on_job, '_label': '%s#%d' % (self.prop, started)})
                     self.pool.submit(job)
@@ -60,6 +60,9 @@ class CliCheck(object):
             self.handle_candidates()
         finally:
             self.explore_wall = budget.elapsed()
+
+    def stop_early(self):
+        return self.opts.fail_fast and any(self.rep.classify(c['vio']) is None for c in self.candidates)
 
     def on_job(self, job, res):
         index = job['_index']
